@@ -1,7 +1,12 @@
 /* C18 harness: the real hex.c (included, so the static inline hexchar()/nibble() are reachable; no hook in /repo).
  * Byte strings travel as lower-case hex pairs, "-" = empty.  Every string handed to hex_get_byte lives in an
  * exactly-sized heap block (len + 1 bytes) so that ASan sees a one-byte over-read.
- * ops:  tables | dump <bytes> | parse <text> | reparse <text> | reset ; "--" echoes "--"
+ * ops:  tables | dump <bytes> | parse <text> | reparse <text> | bdump | bparse | breparse | reset ; "--" echoes "--"
+ *   b...     second placement mode: instead of a fresh block per string, the text (and the byte array of a dump) is copied
+ *            RIGHT-ALIGNED into one persistent BLK-byte heap block allocated once per process (the NUL is the last byte of
+ *            the block, so ASan still sees a one-byte over-read; the unused left part is refilled with 0xEE).  Texts of
+ *            one history thus occupy the same addresses one after the other, like a refilled line buffer or a recycled
+ *            chunk: state that hex.c might keep between calls, keyed on addresses, becomes visible.  Same output format.
  *   tables   isspace/isxdigit of libc as hex.c calls them ((int) of a char), nibble() and hexchar() for all 256 chars
  *   dump     "dump ret=<n> <text>" (hex_dump_to_file into a memstream), then the parse line of that text
  *   parse    "parse v@off ... -1 -1 -1": hex_get_byte(text,&p), then hex_get_byte(NULL,&p) until -1 (at most
@@ -44,7 +49,24 @@ static void encode(const unsigned char *b, size_t n)
 		printf("%02x", b[i]);
 }
 
-/* text: exactly len+1 bytes on the heap, text[len] == 0 */
+#define BLK 4096
+static char *text_blk;            /* persistent block for texts */
+static unsigned char *array_blk;  /* persistent block for the arrays handed to hex_dump_to_file */
+
+/* the string of len bytes right-aligned in the persistent text block (NULL when it does not fit) */
+static char *place_text(const void *src, size_t len)
+{
+	if (len + 1 > BLK)
+		return NULL;
+	if (!text_blk)
+		text_blk = malloc(BLK);
+	memset(text_blk, 0xEE, BLK - len - 1);
+	memcpy(text_blk + BLK - len - 1, src, len);
+	text_blk[BLK - 1] = 0;
+	return text_blk + BLK - len - 1;
+}
+
+/* text: exactly len+1 bytes on the heap (or the tail of the persistent block), text[len] == 0 */
 static void parse_line(const char *text, size_t len, int again)
 {
 	const char *p = (const char *)0x1; /* poison: the first call must set it */
@@ -98,30 +120,47 @@ int main(void)
 			for (int c = 0; c < 256; c++)
 				printf("%s%d", c ? "," : "", (int)(unsigned char)hexchar((char)c));
 			printf("\n");
-		} else if (!strcmp(op, "dump") && n == 2) {
+		} else if ((!strcmp(op, "dump") || !strcmp(op, "bdump")) && n == 2) {
 			size_t len, tl = 0;
+			int blk = op[0] == 'b';
 			unsigned char *raw = decode(arg, &len);
-			unsigned char *bytes = malloc(len ? len : 1); /* exactly sized: an over-read of the array is seen */
+			unsigned char *fresh = NULL, *bytes; /* exactly sized / right-aligned: an over-read of the array is seen */
 			char *txt = NULL;
 			FILE *f = open_memstream(&txt, &tl);
+			if (blk && len <= BLK) {
+				if (!array_blk)
+					array_blk = malloc(BLK);
+				memset(array_blk, 0xEE, BLK - len);
+				bytes = array_blk + BLK - len;
+			} else {
+				fresh = malloc(len ? len : 1);
+				bytes = len ? fresh : fresh + 1;
+			}
 			memcpy(bytes, raw, len);
-			int ret = hex_dump_to_file(f, len ? bytes : bytes + 1, len);
+			int ret = hex_dump_to_file(f, bytes, len);
 			fclose(f);
 			printf("dump ret=%d ", ret);
 			encode((unsigned char *)txt, tl);
 			printf("\n");
-			char *exact = malloc(tl + 1);
-			memcpy(exact, txt, tl);
-			exact[tl] = 0;
-			parse_line(exact, tl, 0);
-			free(exact); free(txt); free(bytes); free(raw);
-		} else if ((!strcmp(op, "parse") || !strcmp(op, "reparse")) && n == 2) {
+			char *exact = NULL, *text = blk ? place_text(txt, tl) : NULL;
+			if (!text) {
+				text = exact = malloc(tl + 1);
+				memcpy(exact, txt, tl);
+				exact[tl] = 0;
+			}
+			parse_line(text, tl, 0);
+			free(exact); free(txt); free(fresh); free(raw);
+		} else if ((!strcmp(op, "parse") || !strcmp(op, "reparse") || !strcmp(op, "bparse") || !strcmp(op, "breparse")) && n == 2) {
 			size_t len;
+			int blk = op[0] == 'b';
 			unsigned char *raw = decode(arg, &len);
-			char *exact = malloc(len + 1);
-			memcpy(exact, raw, len);
-			exact[len] = 0;
-			parse_line(exact, len, op[0] == 'r');
+			char *exact = NULL, *text = blk ? place_text(raw, len) : NULL;
+			if (!text) {
+				text = exact = malloc(len + 1);
+				memcpy(exact, raw, len);
+				exact[len] = 0;
+			}
+			parse_line(text, len, op[blk] == 'r');
 			free(exact); free(raw);
 		} else {
 			puts("bad-op");
